@@ -18,6 +18,8 @@ func TestC07(t *testing.T) {
 	p.W["deployp"], p.W["callp"] = 4, 10
 	p.PowerTies = true
 	p.Alt.PowerTies = true
+	p.Alt.GovFocus = "maxValidatorCnt,gasPrice,minTrxGas"
+	p.Alt.GasFaults = true
 	runCheck(t, "C07", p, func(src Source, st *Stats) *Outcome {
 		if gs, ok := src.(*GenSource); ok {
 			gs.OnEndBlock = func(w *World, b *Block) {
